@@ -37,7 +37,7 @@ ASSUMPTIONS = [
     'a wet-bulb observation is physically valid when wet <= dry and the resulting vapour pressure is >= 0',
     'the CO2 form takes relative humidity only (documented); wet-bulb input is compared through the equivalent humidity',
 ]
-REQUIRED_COUNTERS = [
+REQUIRED_COUNTERS = ['one_element_changed_sequences', 
     'joins', 'inverse_pair', 'bearing_range', 'bearing_direction', 'rotation_scale', 'radiations_closed_form',
     'inverse_pair_reverse', 'polar2rect', 'polar2rect_angle_objects', 'rect2polar', 'near_axis_joins', 'axis_joins',
     'va_pythagoras', 'va_heights', 'va_hz_closed_form', 'va_q1', 'va_q2', 'va_q3', 'va_q4',
@@ -826,6 +826,25 @@ def run_shard(spec, ctx):
                 if i < 2:
                     ctx.sample(c)
                 run_case(ns, ctx, c, mon)
+                if rnd.random() < 0.3:
+                    # the same reduction with ONE element changed (another carrier wavelength in the same atmosphere, the
+                    # same wavelength at another pressure ...), then the original again
+                    c2 = dict(c)
+                    which = rnd.choice(['lam', 'lam', 'P', 'T', 'xc', 'd'])
+                    if which == 'lam':
+                        c2['lam'] = rnd.choice([0.5, 0.6328, 0.85, 1.0, round(rnd.uniform(0.5, 1.0), 3)])
+                    elif which == 'P':
+                        c2['P'] = min(1100.0, max(650.0, c['P'] + rnd.choice([-50.0, 25.0, 1.0])))
+                    elif which == 'T' and c.get('wet') is None:
+                        c2['T'] = min(45.0, max(-20.0, c['T'] + rnd.choice([-10.0, 5.0, 0.5])))
+                    elif which == 'xc':
+                        c2['xc'] = rnd.choice([300, 420, 450, 600])
+                    else:
+                        c2['d'] = c['d'] * rnd.choice([0.5, 2.0, 10.0])
+                    if c2 != c:
+                        run_case(ns, ctx, c2, mon)
+                        run_case(ns, ctx, c, mon)
+                        ctx.count('one_element_changed_sequences')
         elif kind == 'disp':
             for i in range(n):
                 c = gen_disp(rnd)
